@@ -73,6 +73,12 @@ func leaves() []shape {
 		{name: "var-compound", body: func(string) []Stmt {
 			return []Stmt{Let{"c", "Int", a}, Asg{"c", "+=", lit(1)}, ExprS{v("c")}}
 		}},
+		{name: "defer-local-ret", body: func(string) []Stmt {
+			return []Stmt{Defer{Lit{`"d"`}}, Let{"b", "", bin("+", a, lit(1))}, Ret{v("b")}}
+		}},
+		{name: "defer-arg-value", body: func(string) []Stmt {
+			return []Stmt{Let{"b", "", bin("+", a, lit(1))}, Defer{v("b")}, ExprS{bin("*", v("b"), lit(2))}}
+		}},
 		// a closure literal followed by `return` (on the unchanged tree these bases are rejected: the known C12 defect
 		// seen from the other side; once repaired they enter the space)
 		{name: "closure-then-ret", body: func(string) []Stmt {
